@@ -54,8 +54,10 @@ def run(res, tier, seed):
     ncases = 700 if quick else 20000
     cases, metas = [], []
     for k in range(ncases):
-        g = xslgen.XslGen(rng)
-        ss = g.stylesheet()
+        if k % 5 == 4:
+            ss = xslgen.scoping_stylesheet(rng)       # the scoping family (see tools/xslgen.py)
+        else:
+            ss = xslgen.XslGen(rng).stylesheet()
         d = rng.randrange(len(docs))
         cdir = os.path.join(wd, "case%d" % k); os.makedirs(cdir)
         open(os.path.join(cdir, "main.xsl"), "w").write(xslgen.render(ss))
